@@ -249,6 +249,124 @@ def known_match(prop, **kw):
     return None
 
 
+# ----------------------------------------------------------------------------------------------
+# exploration-only stream: generic packages with generic TYPES and types of their own, deferred constants, used
+# through instances in typed contexts.  (The MiniVHDL reference has generic packages with constant generics only —
+# types inside a generic package need per-instance type identity, which the reference does not model — so these
+# programs are hand-written templates with parameters, valid by inspection, NOT covered by the theorems.)
+# ----------------------------------------------------------------------------------------------
+TEMPLATE_ACTUALS = [
+    ("integer", "7", "41", "+"), ("natural", "3", "9", "+"), ("boolean", "true", "false", "and"),
+    ("bit", "'1'", "'0'", "or"), ("character", "'x'", "'y'", None), ("my_enum_t", "red", "blue", None),
+    ("my_int_t", "5", "6", "+"), ("my_sub_t", "2", "3", "+"),
+]
+
+
+def template_program(k, r):
+    """one library: support package, generic package (generic type + own types, deferred constants with body),
+    1-3 instances, a user package/entity/architecture that uses the constants of the instances in typed contexts"""
+    lib = "tl%d" % k
+    gp, sup, usr, ent = "gpk%d" % k, "sup%d" % k, "usr%d" % k, "ent%d" % k
+    n_inst = 1 + r.randrange(3)
+    support = ("package %s is\n  type my_enum_t is (red, green, blue);\n  type my_int_t is range 0 to 100;\n"
+               "  subtype my_sub_t is integer range 0 to 15;\nend package;\n" % sup)
+    own_rec = r.randrange(2) == 0
+    gpd = ["library %s;" % lib, "use %s.%s.all;" % (lib, sup), "package %s is" % gp,
+           "  generic (type elem_t; first_v : elem_t; width : natural := 4);",
+           "  type own_t is (lo, mid, hi);", "  subtype idx_t is natural range 0 to 7;"]
+    if own_rec:
+        gpd += ["  type pair_t is record", "    a : elem_t;", "    b : own_t;", "  end record;"]
+    gpd += ["  constant dflt : elem_t;", "  constant level : own_t;", "  constant idx : idx_t;"]
+    if own_rec:
+        gpd += ["  constant both : pair_t;"]
+    gpd += ["  function pick (x : elem_t; y : elem_t; s : own_t) return elem_t;", "end package;"]
+    gpb = ["package body %s is" % gp, "  constant dflt : elem_t := first_v;",
+           "  constant level : own_t := %s;" % r.choice(["lo", "mid", "hi"]), "  constant idx : idx_t := %d;" % r.randrange(8)]
+    if own_rec:
+        gpb += ["  constant both : pair_t := (a => first_v, b => level);"]
+    gpb += ["  function pick (x : elem_t; y : elem_t; s : own_t) return elem_t is", "  begin",
+            "    if s = level then return x; else return y; end if;", "  end function;", "end package body;"]
+    files = [("t_sup.vhd", support), ("t_gp.vhd", "\n".join(gpd) + "\n"), ("t_gpb.vhd", "\n".join(gpb) + "\n")]
+    insts = []
+    for j in range(n_inst):
+        ty, v1, v2, op = r.choice(TEMPLATE_ACTUALS)
+        name = "inst%d_%d" % (k, j)
+        insts.append((name, ty, v1, v2, op))
+        files.append(("t_%s.vhd" % name,
+                      "library %s;\nuse %s.%s.all;\npackage %s is new %s.%s generic map (elem_t => %s, first_v => %s%s);\n"
+                      % (lib, lib, sup, name, lib, gp, ty, v1, r.choice(["", ", width => 8"]))))
+    ul = ["library %s;" % lib, "use %s.%s.all;" % (lib, sup)]
+    style = r.randrange(3)          # 0: use inst.all (first instance only), 1/2: selected names
+    if style == 0:
+        ul.append("use %s.%s.all;" % (lib, insts[0][0]))
+    ul += ["entity %s is" % ent, "end entity;", "architecture a of %s is" % ent]
+    body = []
+    for j, (name, ty, v1, v2, op) in enumerate(insts):
+        pre = "" if (style == 0 and j == 0) else "%s.%s." % (lib, name)
+        ul.append("  constant c%d : %s := %sdflt;" % (j, ty, pre))
+        ul.append("  constant l%d : %sown_t := %slevel;" % (j, pre, pre))
+        ul.append("  constant i%d : natural := %sidx;" % (j, pre))
+        ul.append("  signal s%d : %s := %spick(%sdflt, %s, %slevel);" % (j, ty, pre, pre, v2, pre))
+        if op:
+            ul.append("  constant d%d : %s := %sdflt %s %s;" % (j, ty, pre, op, v2))
+        if own_rec:
+            ul.append("  constant p%d : %spair_t := %sboth;" % (j, pre, pre))
+            ul.append("  constant q%d : %s := %sboth.a;" % (j, ty, pre))
+        # the operators of own_t are only visible through `use inst.all`
+        cond = ("l%d = %s" % (j, r.choice(["lo", "mid", "hi"]))) if pre == "" else ("i%d < %d" % (j, r.randrange(1, 8)))
+        body.append("  s%d <= %spick(x => c%d, y => %sdflt, s => %slevel) when %s else %sdflt;"
+                    % (j, pre, j, pre, pre, cond, pre))
+        body.append("  assert i%d + %sidx < 16%s;" % (j, pre, (" and level = l%d" % j) if pre == "" else ""))
+    ul += ["begin"] + body + ["end architecture;"]
+    files.append(("t_user.vhd", "\n".join(ul) + "\n"))
+    return lib, files
+
+
+def template_bundle(seed_, n, path):
+    r = random.Random(seed_ * 31 + 5)
+    with open(path, "w") as f:
+        for k in range(n):
+            lib, files = template_program(k, r)
+            f.write("P t%d\n" % k)
+            for name, text in files:
+                lines = text.split("\n")
+                if lines and lines[-1] == "":
+                    lines = lines[:-1]
+                f.write("F %s %s_%s %d\n" % (lib, lib, name, len(lines)))
+                for l in lines:
+                    f.write(l + "\n")
+
+
+def check_templates(res, hbin, d, tier):
+    n = 40 if tier == "quick" else 600
+    path = os.path.join(d, "templates.bundle")
+    template_bundle(seed(), n, path)
+    hr, log = run_harness(hbin, path, os.path.join(d, "templates.out"), os.path.join(d, "wd_t"), threads=8, batch=20)
+    if hr is None:
+        res.violation("harness c05 run crashed on the template stream", {"kind": "harness", "log": log[-2000:]}, no_failing_input=True)
+        return
+    impl, _ = hr
+    b = Bundle(path)
+    bad = 0
+    for pid in b.order:
+        o = impl.get(pid)
+        res.count_case("template|%s|%d" % (pid, sum(len(t) for t in b.by_pid[pid].values())), True)
+        if o is None or o["panic"] or errors_of(o):
+            bad += 1
+            if bad <= 3:
+                what = ("Project::analyse panics" if (o and o["panic"]) else
+                        "error diagnostic: " + describe_diag(errors_of(o)[0]) if o else "no result")
+                res.violation("generic-package template program (valid by inspection; exploration only, outside the theorems): " + what,
+                              {"kind": "input", "template": pid, "seed": seed(), "files": b.text_of(pid),
+                               "diagnostics": [describe_diag(x) for x in (errors_of(o) if o else [])][:10]})
+    res.coverage["template_programs"] = n
+    for fn in ("templates.bundle", "templates.out"):
+        try:
+            os.remove(os.path.join(d, fn))
+        except OSError:
+            pass
+
+
 def main(tier, replay=None):
     res = Result(PROP, tier, level="other")
     d = rundir(PROP)
@@ -261,9 +379,11 @@ def main(tier, replay=None):
         rp = json.load(open(replay))
         reqs = [rp["request"]] if "request" in rp else []
         if not reqs:
-            check_libs(res, hbin, d)      # a recorded case about the bundled libraries
+            check_libs(res, hbin, d)      # a recorded case about the bundled libraries / the template stream
+            check_templates(res, hbin, d, tier)
     else:
         check_libs(res, hbin, d)
+        check_templates(res, hbin, d, tier)
         n = 300 if tier == "quick" else 8000
         reqs = read_corpus("C05.cases") + gen_requests(sd, n, 2, 3, 0, first_tag=1000)
     if not reqs:
@@ -402,7 +522,11 @@ def main(tier, replay=None):
                         "generated program is Valid for the reference, the rewrites preserve reference validity (closed "
                         "under composition).  exploration half (decisive for the implementation): the analyser "
                         "(vhdl_lang/src/analysis, ~15 kLoC, not modelled) is run on the bundled libraries and on every "
-                        "generated and rewritten program; the reference is tied to it only by this correspondence"),
+                        "generated and rewritten program; the reference is tied to it only by this correspondence.  "
+                        "An additional exploration-only stream (coverage.template_programs) of hand-written parameterised "
+                        "template programs exercises generic packages with generic TYPES, types declared in the generic "
+                        "package and deferred constants used through instances in typed contexts: these are outside the "
+                        "MiniVHDL fragment and outside the theorems (valid by inspection)"),
         "partial": True,
         "trusted_base": TRUSTED_BASE_COMMON + [
             "the reference semantics Mini/Sem.v is a sufficient condition for LRM validity on the fragment (two conservative "
